@@ -115,3 +115,19 @@ Proof.
   destruct (run_gsteps (init 2097153) (fun _ => 0) import_example_history) as [[s v]|] eqn:E; [|exact Hc].
   split; [|exact Hc]. pose proof (Hb _ s v E) as Hw. cbn [wf_gsteps wf_gstep] in Hw. exact (proj1 Hw).
 Qed.
+
+(* the whole example history of Props/C04.v, for the examples of Props/C09.v *)
+Lemma full_history_example_log :
+  let gs := import_example_history ++ [GImport import_example_image 2] in
+  wf_gsteps (init 2097153) gs /\
+  match run_gsteps (init 2097153) (fun _ => 0) gs with
+  | Some (s', _) => match rev (ltxdir s') with
+                    | f :: _ => (wal_mode s', l_max f, l_post f =? fl (N.lxor (fl 41) (fl 42)), txid s') = (false, 10, true, 10)
+                    | [] => False
+                    end
+  | None => False
+  end.
+Proof.
+  cbn zeta. split; [|vm_compute; reflexivity].
+  pose proof g_history_example as H. cbn zeta in H. destruct H as [Hwf _]. exact Hwf.
+Qed.
